@@ -55,7 +55,9 @@ class TranslateNode(Node, TranslatableTag):
     translations_var = "translations"
     message_count_var = "count"
     message_context_var = "context"
-    re_vars = re.compile(r"(?<!%)%\((\w+)\)s")
+    # A placeholder is introduced by an unescaped percent sign. That is one preceded
+    # by an even number (possibly zero) of percent signs, as in `100%%%(you)s`.
+    re_vars = re.compile(r"(?<!%)(?:%%)*%\((\w+)\)s")
 
     def __init__(
         self,
